@@ -27,6 +27,9 @@ FileProblems(ev) ==
   \cup (IF ev.readok THEN {} ELSE {"ReadBackDiffers"})
   \cup (IF ev.vok THEN {} ELSE {"ValidatorRefusesWriterOutput"})
   \cup (IF ev.shrinkok THEN {} ELSE {"ShrunkNotLoadableAsEmpty"})
+  \* a file with a non-empty payload is not a shrunk file; the writer leaves the caller's buffer alone
+  \cup (IF ev.shrunkbefore /\ ev.n > 0 THEN {"UnshrunkFileReportedShrunk"} ELSE {})
+  \cup (IF ev.bufkept THEN {} ELSE {"WriterModifiedCallersBuffer"})
   \* a flipped bit never makes the reader hand out different bytes
   \cup (IF \A k \in 1..Len(ev.flips) : ev.flips[k].res # "diff" \/ InHeader(ev.flips[k].off) THEN {} ELSE {"FlipYieldsDifferentBytes"})
   \cup (IF \A k \in 1..Len(ev.flips) : ev.flips[k].res # "diff" \/ ~InHeader(ev.flips[k].off) THEN {} ELSE {"HeaderFlipYieldsDifferentBytes"})
